@@ -46,8 +46,8 @@ Fixpoint rd_rep {A} (n : nat) (r : rd A) : rd (list A) :=
   | S k => x <- r ;; t <- rd_rep k r ;; rd_ret (x :: t)
   end.
 
-(** [make([]T, n)] with a count read from the file: a negative count panics. *)
-Definition rd_count (n : Z) : rd nat := fun s => if n <? 0 then Panic 2 else Ok (Z.to_nat n, s).
+(** A count read from the file: the readers reject a negative one. *)
+Definition rd_count (n : Z) : rd nat := fun s => if n <? 0 then Err 1 else Ok (Z.to_nat n, s).
 
 (** The optional trailing count of unplaced reads: absent at end of input, an
     error when fewer than eight bytes remain. *)
@@ -180,19 +180,17 @@ Definition tbx_read (s : list Z) : outcome (option tbx) :=
   match (m <- rd_bytes 4 ;;
          if negb (io_bytes_eqb m tbi_magic) then rd_fail 1 else
          n <- rd_i32 ;;
-         if n =? 0 then rd_ret None else                   (* ReadFrom returns (nil, nil) *)
          format <- rd_i32 ;; nc <- rd_i32 ;; bc <- rd_i32 ;; ec <- rd_i32 ;; meta <- rd_i32 ;; skip <- rd_i32 ;;
          lnm <- rd_i32 ;; k <- rd_count lnm ;; nb <- rd_bytes k ;;
-         match rev nb with
-         | [] => (fun _ => Panic 1)                       (* names[len(names)-1] on an empty string *)
-         | lastb :: pre =>
-             if negb (lastb =? 0) then rd_fail 1 else
-             let names := io_split0 [] (rev pre) in
-             if negb (zlen names =? n) then rd_fail 1 else
-             ix <- rd_core n ;;
-             rd_ret (Some (mkTbx names (io_name_map names 0 [])
-                                 [u8 format; (if Z.land format 65536 =? 0 then 0 else 1); nc; bc; ec; meta; skip] ix))
-         end) s with
+         (* an empty name block leaves refNames nil (only consistent with n = 0) *)
+         names <- match rev nb with
+                  | [] => rd_ret []
+                  | lastb :: pre => if negb (lastb =? 0) then rd_fail 1 else rd_ret (io_split0 [] (rev pre))
+                  end ;;
+         if negb (zlen names =? n) then rd_fail 1 else
+         ix <- rd_core n ;;
+         rd_ret (Some (mkTbx names (io_name_map names 0 [])
+                             [u8 format; (if Z.land format 65536 =? 0 then 0 else 1); nc; bc; ec; meta; skip] ix))) s with
   | Ok (r, _) => Ok r
   | Err e => Err e | Panic w => Panic w | Stuck => Stuck
   end.
@@ -248,6 +246,7 @@ Definition csi_read (s : list Z) : outcome (option cindex) :=
          if negb ((ver =? 1) || (ver =? 2)) then rd_fail 1 else
          ms <- rd_u32 ;; if s32 ms <? 0 then rd_fail 1 else
          dp <- rd_u32 ;; if s32 dp <? 0 then rd_fail 1 else
+         if (dp >=? 32 / csi_nextBinShift) || (ms >=? 64) || (u32 (ms + u32 (dp * csi_nextBinShift)) >=? 64) then rd_fail 1 else
          na <- rd_i32 ;;
          aux <- (if na >? 0 then rd_bytes (Z.to_nat na) else rd_ret []) ;;
          let limit := cs_bin_limit dp in
